@@ -640,6 +640,8 @@ def corpus():
         P.append([("cube", keys, ("agg", "groupBy", [], nsb))])
         P.append([("cube", keys, ("count", []))])
     P.append([("cube", [KA], ("short", [], "sum", ["b"], True))])
+    P.append([("cube", [KB, (("bin", "Mul", C("b"), ("lit", 1)), "g", "alias")], ("agg", "groupBy", [], nsb))])
+    P.append([("cube", [(("bin", "Add", C("b"), C("a")), "g", "alias"), KA], ("count", []))])
     P.append([W_NONE, ("cube", [KA], ("count", []))])
     P.append([W_POS, ("cube", [KA, KS], ("agg", "groupBy", [], nsb)), OP("where", ("isnull", C("a")))])
     # the aggregate as a step inside C01 chains
@@ -731,7 +733,7 @@ def step_refs(step):
             for e, _, _ in o[1]:
                 out |= rel.e_cols(e)
         elif o[0] == "withColumn":
-            out |= rel.e_cols(o[2])
+            out |= rel.e_cols(o[2]) | {o[1]}      # the target names the column to replace when it exists
         elif o[0] == "rename":
             out.add(o[1])
         elif o[0] == "drop":
@@ -769,6 +771,11 @@ def signature(steps, flags):
             return "C06/dict-form-name:count-star"
         if inner[0] == "short" and not inner[4]:
             return "C06/shortcut-without-columns-raises" if flags.get("raised") else "C06/shortcut-without-columns-differs"
+    for s in calls:
+        if s[0] == "cube":
+            plain = {k[0][1] for k in s[1] if k[0][0] == "col"}
+            if any(k[0][0] != "col" and rel.e_cols(k[0]) and rel.e_cols(k[0]) <= plain for k in s[1]):
+                return "C06/cube-key-expression-over-other-cube-keys"
     seen_call = False
     for s in steps:
         if seen_call and any("(" in c for c in step_refs(s)):
@@ -947,6 +954,33 @@ def run(ctx: core.Ctx):
     if model_fail:
         ctx.broken("T3:impl-vs-model", f"{len(model_fail)} cases where df.columns/collect() equal the Spark spec but not the model; "
                    f"first: {model_fail[0]['program']} on {model_fail[0]['table']}", data=model_fail[:5])
+    if t2_fail:
+        # a tree that differs although the final rows agree: look for a prefix of the program whose result already differs
+        # from the Spark spec (e.g. a step that was silently ignored and later masked)
+        pitems, pmeta = [], []
+        for fi, d in enumerate(t2_fail[:60]):
+            st_all = [_tup(x) for x in d["steps_json"]]
+            for n_pre in range(1, len(st_all)):
+                (pm, plim), pre = plan_mode(st_all[:n_pre], {"a": "int", "b": "int", "s": "str"})
+                for tname in ("t1", "t3"):
+                    rr = run_case(session, F, exp, pre, TABLES[tname], want_export=False)
+                    pitems.append(case_coq(pre, TABLES[tname], pm, plim, "None", rr["impl"]))
+                    pmeta.append((fi, pre, tname, rr))
+        pres = ctx.cases("c06pfx", HEADER, pitems, per_file=120, result_ty="str", fn="check") if pitems else []
+        explained = set()
+        for (fi, pre, tname, rr), r in zip(pmeta, pres):
+            if r is None or len(r) != 6 or fi in explained:
+                continue
+            if r[5] == "1" or r[2] != "1":
+                explained.add(fi)
+                ctx.deviation(signature(pre, {"raised": r[5] == "1", "exc": (rr["exc"] or "?").split(":")[0],
+                                              "cube_on_empty": rr["cube_on_empty"], "impl_is_model": r[1] == "1"}),
+                              "a prefix of a program whose SQL tree differs from the model already differs from PySpark's meaning",
+                              {"program": [step_str(s) for s in pre], "table": tname, "rows": TABLES[tname], "steps_json": pre,
+                               "exception": rr["exc"], "got": None if rr["impl"] is None else {"columns": rr["impl"][0], "rows": rr["impl"][1][:40]},
+                               "verdict(t2,impl=model,impl=spec,model=spec,in_domain,raised)": r,
+                               "found_from": t2_fail[fi]["program"]})
+        t2_fail = [d for fi, d in enumerate(t2_fail) if fi not in explained]
     if t2_fail:
         ctx.broken("T2:tree-vs-model", f"{len(t2_fail)} programs whose exported SQL tree differs from the model's normal form; "
                    f"first: {t2_fail[0]['program']}", data=t2_fail[:5])
